@@ -25,6 +25,11 @@ pub fn replay(c: &Value) -> Result<(), String> {
 
 /// `may_warn_about_small_input_size()` is true exactly for sizes below 4097.
 fn warn_case(size: u64) -> Result<(), String> {
+    // a panic escaping from the library through any call below is a violation of this case, not a crash
+    guard_case(|| warn_case_unguarded(size))
+}
+
+fn warn_case_unguarded(size: u64) -> Result<(), String> {
     let g = Generator::verif_new_with_prefix_zeroes(size);
     let w = guarded(|| g.may_warn_about_small_input_size())?;
     if w != (size < 4097) {
@@ -44,6 +49,11 @@ fn warn_case(size: u64) -> Result<(), String> {
 /// exactly the limit is accepted, anything above is rejected at finalisation
 /// (and as a declaration) with the size-too-large errors.
 fn limit_case(size: u64) -> Result<(), String> {
+    // a panic escaping from the library through any call below is a violation of this case, not a crash
+    guard_case(|| limit_case_unguarded(size))
+}
+
+fn limit_case_unguarded(size: u64) -> Result<(), String> {
     let g = Generator::verif_new_with_prefix_zeroes(size);
     let r = Ctph::new(size);
     if let Some(m) = mismatch(&g, &r) {
@@ -105,6 +115,11 @@ fn limit_case(size: u64) -> Result<(), String> {
 
 /// hook(N) renders exactly like a generator that really consumed N zero bytes.
 fn hook_vs_real(n: u64) -> Result<(), String> {
+    // a panic escaping from the library through any call below is a violation of this case, not a crash
+    guard_case(|| hook_vs_real_unguarded(n))
+}
+
+fn hook_vs_real_unguarded(n: u64) -> Result<(), String> {
     let mut real = Generator::new();
     let zeros = vec![0u8; 1 << 20];
     let mut left = n;
